@@ -1,7 +1,7 @@
 #!/bin/bash
 # seedtest.sh <seedname> <prop> [check args]: apply seeded patch to /repo, run the check, undo
 name=$1; prop=$2; shift 2
-cd /repo && git apply /verif/seeded/$name/patch.diff || { echo "patch does not apply"; exit 3; }
+cd /repo && P=/verif/seeded/$name/patch.diff; [ -f /verif/seeded/$name/patch_on_fixed_tree.diff ] && P=/verif/seeded/$name/patch_on_fixed_tree.diff; git apply $P || { echo "patch does not apply"; exit 3; }
 cd /verif && timeout 3000 ./check $prop "$@" > /verif/tmp/seedtest_$name.log 2>&1; rc=$?
 cd /repo && git checkout -- . && git status --short | head -3
 grep -E "^(VIOLATION|KNOWN|SUMMARY|  harness)" /verif/tmp/seedtest_$name.log | head -12
